@@ -92,7 +92,89 @@ type UIMap struct {
 	M map[int]string
 }
 
+// named and self-referential types (phase 2)
+
+type UList struct {
+	V    int
+	Next *UList
+}
+
+type UTree struct {
+	Name string
+	Kids []UTree
+	M    map[string]*UTree
+	Up   **UTree `struct:"up"`
+}
+
+type UA struct {
+	B *UB
+	N int
+}
+
+type UB struct {
+	A  *UA
+	S  string
+	As []UA
+}
+
+type URL []URL
+type URM map[string]URM
+
+type UBadA struct {
+	B   *UBadB
+	Bad [3]int
+}
+
+type UBadB struct {
+	A *UBadA
+	X int
+}
+
+type UMyInt int32
+type UMyStr string
+type UMyBool bool
+type UMyF float64
+type UMyU8 uint8
+type UStrs []string
+type UMyInts []UMyInt
+type UM map[string]UMyInt
+type UMAny map[string]interface{}
+type UAnys []interface{}
+type UPInt *int
+type UMyAny interface{}
+type UMyIn UIn
+type UKM map[UMyStr]int
+type UKMS map[UMyStr]*UIn
+
+type UNamed struct {
+	I  UMyInt
+	S  UMyStr
+	B  UMyBool
+	F  UMyF
+	L  UStrs
+	Is UMyInts
+	M  UM
+	A  UMAny
+	P  UPInt
+	PI *UMyInt
+	LI []UMyInt
+	MI map[string]UMyU8
+	Ay UMyAny
+	In UMyIn `struct:",inline"`
+	K  UKM
+	LL []UStrs
+}
+
 var menagerie = map[string]reflect.Type{
+	"List": reflect.TypeOf(UList{}), "Tree": reflect.TypeOf(UTree{}), "A": reflect.TypeOf(UA{}), "B": reflect.TypeOf(UB{}),
+	"RL": reflect.TypeOf(URL(nil)), "RM": reflect.TypeOf(URM(nil)),
+	"BadA": reflect.TypeOf(UBadA{}), "BadB": reflect.TypeOf(UBadB{}),
+	"MyInt": reflect.TypeOf(UMyInt(0)), "MyStr": reflect.TypeOf(UMyStr("")), "MyBool": reflect.TypeOf(UMyBool(false)),
+	"MyF": reflect.TypeOf(UMyF(0)), "MyU8": reflect.TypeOf(UMyU8(0)), "Strs": reflect.TypeOf(UStrs(nil)),
+	"MyInts": reflect.TypeOf(UMyInts(nil)), "M": reflect.TypeOf(UM(nil)), "MAny": reflect.TypeOf(UMAny(nil)),
+	"Anys": reflect.TypeOf(UAnys(nil)), "PInt": reflect.TypeOf(UPInt(nil)),
+	"MyAny": reflect.TypeOf((*UMyAny)(nil)).Elem(), "MyIn": reflect.TypeOf(UMyIn{}), "KM": reflect.TypeOf(UKM(nil)), "KMS": reflect.TypeOf(UKMS(nil)),
+	"Named":     reflect.TypeOf(UNamed{}),
 	"In":        reflect.TypeOf(UIn{}),
 	"In2":       reflect.TypeOf(UIn2{}),
 	"S1":        reflect.TypeOf(US1{}),
@@ -187,6 +269,14 @@ func uParseType(s string) (reflect.Type, string, bool) {
 }
 
 func UTypeName(t reflect.Type) string {
+	if n, ok := menagerieNames[t]; ok {
+		return "@" + n
+	}
+	return uTypeNameStructural(t)
+}
+
+// one level structurally: the type a named type is declared as
+func uTypeNameStructural(t reflect.Type) string {
 	switch t.Kind() {
 	case reflect.Interface:
 		return "any"
@@ -202,19 +292,28 @@ func UTypeName(t reflect.Type) string {
 		}
 		return "imap:" + UTypeName(t.Elem())
 	case reflect.Struct:
-		if n, ok := menagerieNames[t]; ok {
-			return "@" + n
+		// a struct type declared from another one (type UMyIn UIn): name of the original
+		for n, m := range menagerie {
+			if m != t && m.Kind() == reflect.Struct && m.ConvertibleTo(t) && menagerieNames[m] == n && isFirstDecl(n) {
+				return "@" + n
+			}
 		}
 		return "@?"
 	}
 	return t.Kind().String()
 }
 
+// isFirstDecl: struct types that are not declared in terms of another menagerie struct
+func isFirstDecl(n string) bool { return n != "MyIn" }
+
 // unf-type <type>: the struct description reflect reports
 func opUnfType(args []string) string {
 	t, ok := UParseType(args[0])
 	if !ok {
 		return "bad-type"
+	}
+	if _, named := menagerieNames[t]; named && (t.Kind() != reflect.Struct || args[0] == "@MyIn") {
+		return UTypeName(t) + "=" + uTypeNameStructural(t)
 	}
 	if t.Kind() != reflect.Struct {
 		return UTypeName(t)
@@ -478,7 +577,7 @@ func (p *uvParser) parse(v reflect.Value) {
 				}
 				e := reflect.New(v.Type().Elem()).Elem()
 				p.parse(e)
-				m.SetMapIndex(reflect.ValueOf(k), e)
+				m.SetMapIndex(reflect.ValueOf(k).Convert(v.Type().Key()), e)
 				if p.has("}") {
 					break
 				}
@@ -737,10 +836,27 @@ func opUnfReuse(args []string) string {
 	return hist + "|" + outs[n-1] + "|" + fresh
 }
 
+// unf-seq <type>,<type>,...: ONE unfolder, SetTarget(&zero value) of each type in turn (Reset
+// in between): ok|err per type. The type registry of the unfolder survives from type to type.
+func opUnfSeq(args []string) string {
+	u, _ := gotype.NewUnfolder(nil)
+	var out []string
+	for _, tn := range strings.Split(args[0], ",") {
+		t, ok := UParseType(tn)
+		if !ok {
+			return "bad-type"
+		}
+		out = append(out, ErrClass(u.SetTarget(reflect.New(t).Interface())))
+		u.Reset()
+	}
+	return strings.Join(out, ",")
+}
+
 var _ = math.Float32bits
 
 func init() {
 	RegisterOp("unf", opUnf)
 	RegisterOp("unf-reuse", opUnfReuse)
 	RegisterOp("unf-type", opUnfType)
+	RegisterOp("unf-seq", opUnfSeq)
 }
